@@ -1,3 +1,25 @@
 import RV.C10.Props
 open RV.C10
+#print axioms modify_spec
+#print axioms modify_interleaved_witness
+#print axioms modify_interleaved_partial
+#print axioms template_skip
+#print axioms template_legal
+#print axioms fresh_per_solution
+#print axioms fresh_total
+#print axioms minted_nodes_new
+#print axioms delete_where_snapshot
+#print axioms insert_data_spec
+#print axioms delete_data_spec
+#print axioms clear_spec
+#print axioms drop_spec
+#print axioms add_spec
+#print axioms copy_spec
+#print axioms move_spec
 #print axioms request_in_order
+#print axioms failed_aborts
+#print axioms union_switch_reads
+#print axioms union_reads_once
+#print axioms union_switch_writes
+#print axioms untouched_graphs_unchanged
+#print axioms store_invariants
